@@ -511,7 +511,7 @@ def _cdf_specials(c):
     return []
 
 
-CDF_AXES = {"bins": [3, 1, 2, 5], "tb": [None, 1.0, 2.5, 32.0], "shape": ["2d", "4d", "1"]}
+CDF_AXES = {"bins": [3, 1, 2, 5], "tb": [None, 1.0, 2.5, 32.0, 1.7], "shape": ["2d", "4d", "1"]}
 DECL = {"linear": 2e-6, "quadratic": 2e-6, "cubic": 2e-5, "rq": 2e-6}  # searchsorted eps=1e-6 / cubic eps=1e-5 (as fractions of the box)
 
 reg(Subject("PiecewiseLinearCDF", dict(CDF_AXES), _cdf("PiecewiseLinearCDF", "linear"), _cdf_shape, domain=_cdf_domain, codomain=_cdf_domain, specials=_cdf_specials, out_specials=_cdf_specials,
@@ -543,7 +543,7 @@ def _fn_codomain(c):
 
 
 for fam in ("linear", "quadratic", "cubic", "rq"):
-    reg(Subject("splinefn_" + fam, dict({"box": ["nonsquare", "unit", "shifted"], "bins": [3, 1, 2, 5] if fam != "quadratic" else [3, 2, 5], "tb": [None, 1.0, 2.5, 32.0]},
+    reg(Subject("splinefn_" + fam, dict({"box": ["nonsquare", "unit", "shifted"], "bins": [3, 1, 2, 5] if fam != "quadratic" else [3, 2, 5], "tb": [None, 1.0, 2.5, 32.0, 1.7]},
                                           **({} if fam == "linear" else {"mins": ["default", "tall", "wide"] + (["steep"] if fam == "rq" else [])}), **({"identity_flag": [False, True]} if fam == "rq" else {})),
                 _splinefn(fam), (2,), domain=_fn_domain, codomain=_fn_codomain, specials=_cdf_specials, out_specials=_cdf_specials, kind="spline",
                 knots=spline_knots("p0", uniform=(fam == "linear")), smooth=(fam != "linear")))
@@ -598,7 +598,7 @@ def _zero_knots(m, cfg, pattern):
     return spline_knots(None, uniform=True)(m, cfg, pattern)
 
 
-PW_AXES = dict(CPL_BASE, bins=[3, 1, 2, 5], tb=[None, 1.0, 2.5, 32.0], uncond=[False, True], net=["resnet", "mlp", "resnet_do"])
+PW_AXES = dict(CPL_BASE, bins=[3, 1, 2, 5], tb=[None, 1.0, 2.5, 32.0, 1.7], uncond=[False, True], net=["resnet", "mlp", "resnet_do"])
 for cls, fam in (("PiecewiseLinearCouplingTransform", "linear"), ("PiecewiseQuadraticCouplingTransform", "quadratic"), ("PiecewiseCubicCouplingTransform", "cubic"),
                  ("PiecewiseRationalQuadraticCouplingTransform", "rq")):
     ax = dict(PW_AXES)
@@ -661,7 +661,7 @@ for cls, fam in (("MaskedPiecewiseLinearAutoregressiveTransform", "linear"), ("M
     reg(Subject(cls, dict(AR_BASE, bins=[3, 1, 2, 5]), _ar(cls), lambda c: (c["features"],), ctx=lambda c: (2,) if c["context"] else None,
                 domain=(0.0, 1.0), codomain=(0.0, 1.0), kind="ar-spline", knots=lambda m, c, p: (np.arange(c["bins"] + 1) / c["bins"]) if p[0] == "zero" else None, smooth=(fam != "linear"), patterns=COND_PATTERNS))
 for cls, fam in (("MaskedPiecewiseQuadraticAutoregressiveTransform", "quadratic"), ("MaskedPiecewiseRationalQuadraticAutoregressiveTransform", "rq")):
-    reg(Subject(cls, dict(AR_BASE, bins=[3, 2, 5] if fam == "quadratic" else [3, 1, 2, 5], tb=[None, 1.0, 2.5, 32.0], mins=["default", "tall", "wide"] + (["steep"] if fam == "rq" else [])), _ar(cls), lambda c: (c["features"],),
+    reg(Subject(cls, dict(AR_BASE, bins=[3, 2, 5] if fam == "quadratic" else [3, 1, 2, 5], tb=[None, 1.0, 2.5, 32.0, 1.7], mins=["default", "tall", "wide"] + (["steep"] if fam == "rq" else [])), _ar(cls), lambda c: (c["features"],),
                 ctx=lambda c: (2,) if c["context"] else None, domain=_cdf_domain, codomain=_cdf_domain, specials=_cdf_specials, out_specials=_cdf_specials, kind="ar-spline", knots=_zero_knots, patterns=COND_PATTERNS))
 reg(Subject("MaskedUMNNAutoregressiveTransform", {"integrand": ["smooth", "relu"], "features": [2, 1, 3], "hidden": [4], "context": [False, True], "blocks": [1], "blocktype": ["residual", "ff"],
                                                   "act": ["tanh"], "bn": [False], "nb_steps": [60, 20]},
